@@ -10,6 +10,7 @@ import (
 	"io"
 	"net"
 	"slices"
+	"strings"
 	"testing"
 	"time"
 
@@ -256,7 +257,13 @@ func TestC05(t *testing.T) {
 		if !bytes.Equal(w, wrote) {
 			ev.Violation(t, "C05", rp, "client did not receive the backend's bytes unchanged (%d vs %d)", len(w), len(wrote))
 		}
-		// names
+		// names (what an accessor returned earlier belongs to the caller, who may have edited it)
+		if p := c.ALPNProtos(); len(p) > 0 {
+			slices.Reverse(p)
+			for i := range p {
+				p[i] = strings.ToUpper(p[i]) + "-edited"
+			}
+		}
 		if c.ServerName() != h.SNI() {
 			ev.Violation(t, "C05", rp, "ServerName()=%q, harness decoder says %q", c.ServerName(), h.SNI())
 		}
